@@ -284,6 +284,9 @@ class HostBase:
             if isinstance(v, Term):
                 return self.ctx.choose(("isinst", "term", v.id, spec.ci.qualname), [True, False])
             return False
+        if isinstance(spec, ExternalV) and isinstance(v, HostExc):
+            full = spec.name[9:] if spec.name.startswith("builtins.") else spec.name
+            return full == "object" or builtin_exc_is_subclass(v.name, full) or builtin_exc_is_subclass(v.name, full.split(".")[-1]) or builtin_exc_is_subclass(v.name.split(".")[-1], full.split(".")[-1])
         if isinstance(spec, ExternalV):
             name = spec.name.split(".")[-1]
             if isinstance(v, Inst):
